@@ -341,6 +341,51 @@ def gen_removal2(rng):
     out.append("top frameend")
     return "\n".join(out) + "\n"
 
+def gen_visibility(rng):
+    """C03/C04/C05: several listeners per event; bodies run other systems (probes) and send further events, so readers
+    are sampled at every position of the tree while data entities are still alive."""
+    g = G(rng); out = []
+    g.ndefs = rng.randint(2, 4); g.excl = [rng.random() < 0.2 for _ in range(g.ndefs)]
+    nE = rng.randint(1, 3); nS = rng.randint(3, 5)
+    for d in range(g.ndefs):
+        runs = []
+        for _ in range(rng.randint(1, 3)):
+            sc = []
+            for _ in range(rng.randint(1, 3)):
+                x = rng.random()
+                if x < 0.35: sc.append("run s%d" % rng.randrange(nS))
+                elif x < 0.5: sc.append("sysevent s%d %d %d" % (rng.randrange(nS), rng.randrange(NTY), g.newpid()))
+                elif x < 0.7: sc.append("broadcast %d %d" % (rng.randrange(NTY), g.newpid()))
+                elif x < 0.85: sc.append("entevent e%d %d %d" % (rng.randrange(nE), rng.randrange(NTY), g.newpid()))
+                elif x < 0.93: sc.append("resmut %d" % rng.randrange(NTY))
+                else: sc.append("despawn s%d" % rng.randrange(nS))
+            runs.append(sc)
+        out.append("def %d %d" % (1 if g.excl[d] else 0, len(runs)))
+        for sc in runs: out.append("run %d" % len(sc)); out += sc
+    setup = ["spawn"] * nE
+    for k in range(nS):
+        ts = []
+        for _ in range(rng.randint(1, 3)):
+            x = rng.random()
+            if x < 0.45: ts.append("bc:%d" % rng.randrange(NTY))
+            elif x < 0.65: ts.append("eev:e%d:%d" % (rng.randrange(nE), rng.randrange(NTY)))
+            elif x < 0.8: ts.append("anyev:%d" % rng.randrange(NTY))
+            else: ts.append("res:%d" % rng.randrange(NTY))
+        setup.append("on %s %d %s" % (rng.choice("ppcr"), rng.randrange(g.ndefs), " ".join(ts)))
+    out.append("top acts %d" % len(setup)); out += setup
+    for _ in range(rng.randint(2, 5)):
+        sc = []
+        for _ in range(rng.randint(1, 2)):
+            x = rng.random()
+            if x < 0.45: sc.append("broadcast %d %d" % (rng.randrange(NTY), g.newpid()))
+            elif x < 0.7: sc.append("entevent e%d %d %d" % (rng.randrange(nE), rng.randrange(NTY), g.newpid()))
+            elif x < 0.8: sc.append("resmut %d" % rng.randrange(NTY))
+            elif x < 0.9: sc.append("sysevent s%d %d %d" % (rng.randrange(nS), rng.randrange(NTY), g.newpid()))
+            else: sc.append("run s%d" % rng.randrange(nS))
+        out.append("top acts %d" % len(sc)); out += sc
+    out.append("top frameend")
+    return "\n".join(out) + "\n"
+
 PROFILES = {
     "mix": lambda rng: gen_mix(rng),
     "big": lambda rng: gen_mix(rng, size=2.0),
@@ -348,6 +393,7 @@ PROFILES = {
     "recursion": lambda rng: gen_mix(rng, size=1.5, body_weights=dict(control=8, trigger=6, register=0.5, life=0.5), weights=dict(control=5, trigger=5)),
     "lifetime": lambda rng: gen_mix(rng, weights=dict(register=4, revoke=4, life=3, trigger=3), body_weights=dict(revoke=2, life=2, register=2)),
     "signals": gen_signals,
+    "visibility": gen_visibility,
     "sharedkey": gen_sharedkey,
     "removal2": gen_removal2,
     "access": lambda rng: gen_mix(rng, weights=dict(access=6, trigger=5, register=1.5), body_weights=dict(access=4, trigger=4)),
